@@ -27,6 +27,8 @@ Act(e) == CASE e.op = "create" -> CreateBlock(e.t)
             [] e.op = "getblockid" -> GetBlockID(e.t, e.s)
             [] e.op = "seal" -> Seal(e.t)
             [] e.op = "reload" -> Reload(e.t)
+            [] e.op = "newbuilder" -> NewBuilder
+            [] e.op = "buildroot" -> BuildRoot(e.b)
 
 StepOp == /\ h <= Len(Trace) /\ l <= Len(Trace[h].hist)
           /\ Act(Trace[h].hist[l])
